@@ -56,10 +56,25 @@ def laws(tier):
     return out
 
 
+def wide_laws():
+    """the same laws with windows of 5 ... 17 samples, checked on all two-letter traces of length 10 (thorough: 12)"""
+    px = F.PX
+    out = []
+    for a, b in ((0, 8), (1, 9), (2, 6), (0, 4), (3, 12), (0, 16)):
+        out.append(('not-eventually', ('not', ('eventually', (a, b), px)), ('always', (a, b), ('not', px)), 'future'))
+        out.append(('not-once', ('not', ('once', (a, b), px)), ('historically', (a, b), ('not', px)), 'past'))
+    for (a, b), (c, d) in (((0, 4), (0, 4)), ((1, 3), (1, 7)), ((0, 2), (0, 6)), ((2, 5), (2, 5)), ((0, 8), (0, 8))):
+        out.append(('ev-ev', ('eventually', (a, b), ('eventually', (c, d), px)), ('eventually', (a + c, b + d), px), 'future'))
+        out.append(('once-once', ('once', (a, b), ('once', (c, d), px)), ('once', (a + c, b + d), px), 'past'))
+    return out
+
+
 def shards(tier):
     ls = laws(tier)
     per = 6 if tier == 'quick' else 3
-    return [{'lo': i, 'hi': min(len(ls), i + per)} for i in range(0, len(ls), per)]
+    out = [{'lo': i, 'hi': min(len(ls), i + per)} for i in range(0, len(ls), per)]
+    out += [{'lo': i, 'hi': i + 1, 'wide': True} for i in range(len(wide_laws()))]
+    return out
 
 
 def dense_ok(f):
@@ -69,7 +84,7 @@ def dense_ok(f):
 def run_shard(shard, tier, res):
     mod = sys.modules[__name__]
     quick = tier == 'quick'
-    ls = laws(tier)[shard['lo']:shard['hi']]
+    ls = (wide_laws() if shard.get('wide') else laws(tier))[shard['lo']:shard['hi']]
     sig_cache = {}
     for name, lhs, rhs, where in ls:
         vs = sorted(F.fvars(lhs) | F.fvars(rhs))
@@ -78,6 +93,9 @@ def run_shard(shard, tier, res):
         n = (4 if len(vs) == 1 else 3)
         values = F.V3 if len(vs) == 1 else F.V2
         traces = list(F.traces(n, values, len(vs)))
+        if shard.get('wide'):
+            L = 10 if quick else 12
+            traces = list(F.traces(L, F.V2, len(vs), minlen=L))
         plans = [('dt_off', False)]
         if where in ('past', 'past-discrete'):
             plans.append(('dt_on', False))
